@@ -81,6 +81,8 @@ class Graph:
         key = (nid, name)
         if key not in cache:
             lab = _unescape(self.labels[nid])
+            if not lab.startswith("/\\"):
+                lab = "/\\ " + lab          # a single-variable state is printed without the conjunction bullet
             m = re.search(r"(?:^|\n)/\\ " + re.escape(name) + r" = (.*?)(?=\n/\\ |\Z)", lab, re.S)
             if not m:
                 raise KeyError(name)
